@@ -39,11 +39,13 @@ def run(ck):
     ck.rule("C06.R7", "a filtered layer's current span comes from the thread's entered-span stack, not from parent links (as C07.R3)", floor=1)
     ck.rule("C06.R6", "collector wrappers forward enter/exit/new_span/current_span and the reference counting that keeps ancestors alive (as C09.R1/R2)", floor=15)
     ck.rule("C06.R5", "captured span traces hold counted handles", floor=1)
+    ck.rule("C06.R8", "every macro form hands the written `parent:` (a span, or None for an explicit root) to the constructor, and only contextual forms use the current span", floor=300)
     r1(ck, F)
     r2(ck, F)
     r3(ck, F)
     r4(ck, F)
     r5(ck, F)
+    r8(ck)
     from rules import C07
     C07.lookup_current_fallback(ck, F, rid="C06.R7")
     # enter/exit/new_span/current_span reach the registry's per-thread stack only through forwarding wrappers (C09.R1/R2)
@@ -311,3 +313,51 @@ def r5(ck, F):
             ck.ok("C06.R5", "SpanTrace::capture stores Span::current() (a counted handle, C03.R3)", fn=b.path)
         else:
             ck.bad("C06.R5", "SpanTrace::capture stores Span::current()", where(b.raw["sp"]), "capture is %s" % r, fn=b.path)
+
+
+def r8(ck):
+    """`an explicit parent or explicit root overrides it`: the macros are the front end that carries `parent:` into
+    Span::child_of / Event::child_of. Over the generated corpus (every macro x prefix set x field form): a form written
+    with `parent: <expr>` builds through child_of with exactly that expression as the parent (the function's argument, or
+    the literal None), and a form without one builds through Span::new / Event::dispatch (contextual)."""
+    FX = Facts("fx")
+    ck.configs.append("fx")
+    for fname, exp in sorted(FX.expect.items()):
+        if exp["kind"] not in ("span", "event"):
+            continue
+        b = FX.body("fx_macros::macros_gen::" + fname)
+        if b is None:
+            continue
+        bodies = [b] + FX.closures_of(b)
+        explicit, contextual = [], []
+        for x in bodies:
+            for bb, t in x.calls():
+                pth = t["callee"].get("path", "")
+                if pth in ("tracing::span::Span::child_of", "tracing_core::event::Event::<'a>::child_of"):
+                    explicit.append((x, t))
+                elif pth in ("tracing::span::Span::new", "tracing_core::event::Event::<'a>::dispatch"):
+                    contextual.append((x, t))
+        want = exp.get("parent")
+        vkey = "%s! with %s" % (exp["macro"], "parent: " + ("None" if want == "None" else "<span>") if want else "no parent:")
+        problem = None
+        if want is None:
+            if explicit or len(contextual) != 1:
+                problem = "a form without `parent:` builds through %s" % ([t["callee"]["path"].rsplit("::", 1)[-1] for _, t in explicit + contextual] or "nothing")
+        else:
+            if contextual or len(explicit) != 1:
+                problem = "`parent: %s` was written but the expansion builds through %s: the contextual parent (the current span) is used instead" % (
+                    want, [t["callee"]["path"].rsplit("::", 1)[-1] for _, t in contextual + explicit] or "nothing")
+            else:
+                x, t = explicit[0]
+                o = x.origin(t["argv"][0])
+                if want == "None":
+                    ok = o[0] == "agg" and o[1]["agg"].get("variant") == "None"
+                else:
+                    # the fixture's only parameter, possibly captured by the dispatch closure
+                    ok = o[0] == "arg" and (x is b and o[1] == 1 or x is not b)
+                if not ok:
+                    problem = "child_of is given %s, not the written parent `%s`" % (o[0], want)
+        if problem:
+            ck.bad("C06.R8", vkey, where(b.raw["sp"]), problem + " (fixture %s)" % fname, fn=b.path)
+        else:
+            ck.ok("C06.R8", "%s [%s!]" % (fname, exp["macro"]), fn=b.path, nontrivial=want is not None)
